@@ -618,6 +618,8 @@ class ExecutionGraph(DAG, PickleInterface):
             # failed.
             LOGGER.warning("'%s' failed to submit properly. "
                            "Step failed.", record.name)
+            # A failed restart submission leaves no job to track.
+            self.in_progress.discard(record.name)
             path, parent = self.bfs_subtree(record.name)
             for node in path:
                 self.failed_steps.add(node)
